@@ -248,7 +248,7 @@ def generate(rng, seed, run, tier, focus='C11', xmode=False):
         elif kind == 'pk_w':
             what = rng.choice(['ctx', 'lat'])
             t = target('pickle', '.pkl')
-            events.append([kind, nd, s, what, t, rng.choice([2, 3, 4, 5])])
+            events.append([kind, nd, s, what, t, rng.choice([0, 1, 2, 3, 4, 5])])
             files[t] = dict(info, form='pk_' + what)
         elif kind == 'txt_w':
             frmat = rng.choice(TEXT_FORMATS)
